@@ -26,7 +26,8 @@ fn main() {
         time_limit: args.f64("time-limit", 60.0),
         replay: args.get("replay-case").and_then(|s| s.parse().ok()),
     };
-    match mode.as_str() {
+    // a panic that escapes a monitor ends the run; it is reported with its message instead of a bare exit code
+    let run = std::panic::catch_unwind(std::panic::AssertUnwindSafe(|| match mode.as_str() {
         "lin" => m_boxcar::run_lin(&opts, &mut rep),
         "stress" => m_boxcar::run_stress(&opts, &mut rep, args.u64("small", 0) != 0),
         "drop" => m_boxcar::run_drop(&opts, &mut rep, args.u64("small", 0) != 0),
@@ -42,6 +43,20 @@ fn main() {
         other => {
             eprintln!("unknown mode {other}");
             std::process::exit(3)
+        }
+    }));
+    if run.is_err() {
+        let msg = vmon::refm::last_panic();
+        let loc = msg.rsplit(" @ ").next().unwrap_or("").to_owned();
+        if vmon::refm::in_repository(&loc) {
+            let prop = match mode.as_str() {
+                "drop" => "C11",
+                "race" => "C09",
+                _ => "C08",
+            };
+            rep.violation(prop, "panic-escaped-the-vector", format!("panic@{loc}"), vmon::jobj! {"message" => msg, "mode" => mode.clone()});
+        } else {
+            rep.inconclusive(format!("monitor panicked outside the repository code: {msg}"));
         }
     }
     rep.write(&out);
